@@ -38,7 +38,7 @@ class Contract:
     def __init__(self, fq, *, prop, types=None, result=None, requires=(), ensures=None, raises=None,
                  modifies=(), loops=None, locals=None, calls=None, globals=None, classes=None, ghost=None,
                  covers=None, inline=(), verify=True, trusted=False, note="", self_type=None, xensures=None,
-                 lemmas=(), findings=None, entry=None, pure=False, havoc_result=True, specfuns=None, ghost_update=None, ghost_havoc=None, watch=None, optional=False):
+                 lemmas=(), findings=None, entry=None, pure=False, havoc_result=True, specfuns=None, ghost_update=None, ghost_havoc=None, watch=None, optional=False, yield_hook=None):
         self.fq = fq
         self.prop = prop
         self.types = dict(types or {})
@@ -79,6 +79,7 @@ class Contract:
         # optional: contract of an internal helper.  If the helper no longer fits the contract (engine error while reading
         # it), the contract is dropped and callers are verified with the helper's real body inlined.
         self.optional = optional
+        self.yield_hook = yield_hook
 
 
 class Registry:
